@@ -183,7 +183,10 @@ impl LuaTypeDecl {
         }
 
         let enum_member_owner = LuaMemberOwner::Type(self.get_id());
-        let enum_members = db.get_member_index().get_members(&enum_member_owner)?;
+        // sorted (declaration order), so that the union lists the fields in a stable order
+        let enum_members = db
+            .get_member_index()
+            .get_sorted_members(&enum_member_owner)?;
 
         let mut union_types = Vec::new();
         if self.is_enum_key() {
